@@ -19,6 +19,7 @@ EXTENDS Integers, Sequences, FiniteSets, SequencesExt, TLC, Json
 CONSTANTS Kind,      \* "simple" | "digraph" | "bipartite"
           MaxN,      \* vertex counts (each side, for bipartite) range over 0..MaxN
           Batches,   \* argument lists tried for add_edges_from
+          NegArgs,   \* how many negative numbers the arguments range over (Python indices from the end)
           Depth      \* export: length of the behaviours printed (0 = no export)
 
 VARIABLES n,        \* number of vertices (left side for bipartite)
@@ -105,7 +106,7 @@ TypeOK ==
 
 -----------------------------------------------------------------------------
 Sizes == 0..MaxN
-Args  == (-2)..(MaxN + 1)       \* includes 0, one vertex too many and negative numbers (Python indices from the end)
+Args  == (0 - NegArgs)..(MaxN + 1)       \* includes 0, one vertex too many and negative numbers (Python indices from the end)
 
 Log(name, args, outcome) ==
     /\ act' = name
